@@ -240,6 +240,8 @@ def rule_profile(ck, units):
         for f in u.funcs:
             if not (f.cls == 'amgcl::solver::skyline_lu' and f.j.get('ctor') and f.cfg is not None) or f.line in done:
                 continue
+            import inline
+            f = inline.expand(f, inline.same_class_helper(keep=('factorize',)))     # the two passes may live in private members
             loc = locate(f)
             prof, store = {}, {}
             for n in f.nodes.values():
